@@ -169,6 +169,33 @@ pub fn run(ctx: &mut Ctx) {
                 }
             }
         }
+        // the input ends 0..6 bytes behind a (possibly huge) value-list TLF
+        for ti in 0..e.map.tlfs.len() {
+            if e.map.tlfs[ti].role != crate::refm::sml::Role::ValList {
+                continue;
+            }
+            for (tl, cls) in crate::gen::corrupt::tlf_substitutions(&e, ti) {
+                let c = crate::gen::corrupt::replace_tlf(&e, ti, &tl, false, cls);
+                let end_tlf = e.map.tlfs[ti].off + tl.len();
+                for extra in 0..=6usize {
+                    i += 1;
+                    if !ctx.mine(i) {
+                        continue;
+                    }
+                    let cut = (end_tlf + extra).min(c.bytes.len());
+                    ctx.eval(&Total { x: c.bytes[..cut].to_vec(), family: "huge-then-eof", big: None });
+                }
+            }
+        }
+        // truncation at every offset (small files only)
+        if e.bytes.len() <= 400 {
+            for off in 0..e.bytes.len() {
+                i += 1;
+                if ctx.mine(i) {
+                    ctx.eval(&Total { x: e.bytes[..off].to_vec(), family: "truncate", big: None });
+                }
+            }
+        }
         // truncation of list responses at every entry boundary
         for (k, off) in e.map.entry_offs.iter().enumerate() {
             if ctx.mine(k as u64) {
